@@ -368,7 +368,8 @@ func (its *PushPullHandler) createDatatype() errors.OrdaError {
 }
 
 func (its *PushPullHandler) initClientInfoWithDatatypeDoc() errors.OrdaError {
-	// if its.cli
+	// the datatype may have been resolved by key: file everything under its own DUID
+	its.DUID = its.datatypeDoc.DUID
 	its.subClientDoc = its.datatypeDoc.GetClientInDatatypeDoc(its.CUID, its.isReadOnly)
 	if its.subClientDoc != nil {
 		its.currentCP = its.subClientDoc.GetCheckPoint()
